@@ -195,6 +195,11 @@ pub fn gen_stream(rng: &mut Rng, p: &SProfile, limit: u32) -> Vec<SFrame> {
 /// short directed pipelines that random generation rarely produces: a quiet command that HAS something to say (a hit, an
 /// error) directly followed by the end of the connection (quit, quitq, invalid header, nothing) or by another quiet one
 pub fn directed_streams() -> Vec<Vec<SFrame>> {
+    directed_streams_with_limit().into_iter().map(|(_, f)| f).collect()
+}
+
+/// (item limit the stream needs, if any; frames)
+pub fn directed_streams_with_limit() -> Vec<(Option<u32>, Vec<SFrame>)> {
     let std = |f: Frame| SFrame { kind: Kind::Std, opcode: f.opcode, opaque: f.opaque, bytes: f.bytes() };
     let set = |k: &[u8], opq: u32| std(wire::set_like(op::SET, k, b"val", 5, 0, 0, opq));
     let quit = |q: bool, opq: u32| {
@@ -209,17 +214,17 @@ pub fn directed_streams() -> Vec<Vec<SFrame>> {
     let mut out = vec![];
     for (gi, getop) in [op::GETQ, op::GETKQ].iter().enumerate() {
         let b = 0x100 * (gi as u32 + 1);
-        out.push(vec![set(b"dk", b + 1), std(wire::key_only(*getop, b"dk", 0, b + 2)), quit(true, b + 3)]);
-        out.push(vec![set(b"dk", b + 1), std(wire::key_only(*getop, b"dk", 0, b + 2)), quit(false, b + 3)]);
-        out.push(vec![set(b"dk", b + 1), std(wire::key_only(*getop, b"dk", 0, b + 2)), bad(b + 3)]);
-        out.push(vec![set(b"dk", b + 1), std(wire::key_only(*getop, b"dk", 0, b + 2))]);
-        out.push(vec![set(b"dk", b + 1), std(wire::key_only(*getop, b"dk", 0, b + 2)), std(wire::key_only(*getop, b"dk", 0, b + 3)), std(wire::bare(op::NOOP, b + 4))]);
+        out.push((None, vec![set(b"dk", b + 1), std(wire::key_only(*getop, b"dk", 0, b + 2)), quit(true, b + 3)]));
+        out.push((None, vec![set(b"dk", b + 1), std(wire::key_only(*getop, b"dk", 0, b + 2)), quit(false, b + 3)]));
+        out.push((None, vec![set(b"dk", b + 1), std(wire::key_only(*getop, b"dk", 0, b + 2)), bad(b + 3)]));
+        out.push((None, vec![set(b"dk", b + 1), std(wire::key_only(*getop, b"dk", 0, b + 2))]));
+        out.push((None, vec![set(b"dk", b + 1), std(wire::key_only(*getop, b"dk", 0, b + 2)), std(wire::key_only(*getop, b"dk", 0, b + 3)), std(wire::bare(op::NOOP, b + 4))]));
     }
     // `stat <group>`: the one header-only command that legitimately carries a key
     for (i, g) in [&b"items"[..], &b"settings"[..]].iter().enumerate() {
         let mut st = wire::bare(op::STAT, 0x402 + 0x10 * i as u32);
         st.key = g.to_vec();
-        out.push(vec![set(b"dk", 0x401 + 0x10 * i as u32), std(st), std(wire::key_only(op::GET, b"dk", 0, 0x403 + 0x10 * i as u32)), std(wire::bare(op::NOOP, 0x404 + 0x10 * i as u32))]);
+        out.push((None, vec![set(b"dk", 0x401 + 0x10 * i as u32), std(st), std(wire::key_only(op::GET, b"dk", 0, 0x403 + 0x10 * i as u32)), std(wire::bare(op::NOOP, 0x404 + 0x10 * i as u32))]));
     }
     // oversized quiet requests (5000 bytes: above every limit these suites use): answered 'too large' like the loud ones,
     // skipped, and the connection goes on
@@ -233,15 +238,28 @@ pub fn directed_streams() -> Vec<Vec<SFrame>> {
         }
         f.value = vec![b'o'; 5000];
         let over = SFrame { kind: Kind::Oversize, opcode: *opc, opaque: b + 2, bytes: f.bytes() };
-        out.push(vec![set(b"dk", b + 1), over, std(wire::key_only(op::GET, b"dk", 0, b + 3)), std(wire::bare(op::NOOP, b + 4))]);
+        out.push((None, vec![set(b"dk", b + 1), over, std(wire::key_only(op::GET, b"dk", 0, b + 3)), std(wire::bare(op::NOOP, b + 4))]));
     }
     // quiet mutations that fail: the error must reach the client whatever follows
-    out.push(vec![set(b"dk", 0x301), std(wire::set_like(op::ADDQ, b"dk", b"x", 0, 0, 0, 0x302)), quit(true, 0x303)]);
-    out.push(vec![std(wire::set_like(op::REPLACEQ, b"absent", b"x", 0, 0, 0, 0x311)), quit(true, 0x312)]);
-    out.push(vec![std(wire::key_only(op::DELETEQ, b"absent", 0, 0x321)), quit(true, 0x322)]);
-    out.push(vec![set(b"dk", 0x331), std(wire::set_like(op::SETQ, b"dk", b"x", 0, 0, 77, 0x332)), bad(0x333)]);
-    out.push(vec![std(wire::delta(op::INCRQ, b"absent", 1, 1, 0xffff_ffff, 0, 0x341)), quit(true, 0x342)]);
-    out.push(vec![std(wire::delta(op::DECRQ, b"absent", 1, 1, 0xffff_ffff, 0, 0x351)), std(wire::bare(op::NOOP, 0x352))]);
+    out.push((None, vec![set(b"dk", 0x301), std(wire::set_like(op::ADDQ, b"dk", b"x", 0, 0, 0, 0x302)), quit(true, 0x303)]));
+    out.push((None, vec![std(wire::set_like(op::REPLACEQ, b"absent", b"x", 0, 0, 0, 0x311)), quit(true, 0x312)]));
+    out.push((None, vec![std(wire::key_only(op::DELETEQ, b"absent", 0, 0x321)), quit(true, 0x322)]));
+    out.push((None, vec![set(b"dk", 0x331), std(wire::set_like(op::SETQ, b"dk", b"x", 0, 0, 77, 0x332)), bad(0x333)]));
+    out.push((None, vec![std(wire::delta(op::INCRQ, b"absent", 1, 1, 0xffff_ffff, 0, 0x341)), quit(true, 0x342)]));
+    out.push((None, vec![std(wire::delta(op::DECRQ, b"absent", 1, 1, 0xffff_ffff, 0, 0x351)), std(wire::bare(op::NOOP, 0x352))]));
+    // small answers followed by a large one in the same pipeline: they must arrive in request order
+    {
+        let big = vec![b'B'; 5000];
+        out.push((Some(8192), vec![
+            set(b"dk", 0x601),
+            std(wire::set_like(op::SET, b"bigk", &big, 3, 0, 0, 0x602)),
+            std(wire::key_only(op::GET, b"dk", 0, 0x603)),
+            std(wire::bare(op::NOOP, 0x604)),
+            std(wire::key_only(op::GETK, b"bigk", 0, 0x605)),
+            std(wire::key_only(op::GET, b"dk", 0, 0x606)),
+            std(wire::bare(op::NOOP, 0x607)),
+        ]));
+    }
     out
 }
 
@@ -476,11 +494,18 @@ pub fn run(r: &mut Runner, level: &str, profile: &str, seed: u64, count: u64, ti
     let p = sprofile(profile);
     let mut master = Rng::new(seed ^ 0x5eed);
     let mut st = StreamStats { streams: 0, cases: 0, kinds: BTreeMap::new(), distinct: Default::default(), samples: vec![] };
-    let directed = directed_streams();
+    let directed = directed_streams_with_limit();
     for it in 0..count {
         let mut rng = master.fork();
-        let limit: u32 = *rng.pick(&[1024u32, 1024, 2048, 4096]);
-        let frames = if (it as usize) < directed.len() && count as usize >= directed.len() + 4 { directed[it as usize].clone() } else { gen_stream(&mut rng, &p, limit) };
+        let mut limit: u32 = *rng.pick(&[1024u32, 1024, 2048, 4096]);
+        let frames = if (it as usize) < directed.len() && count as usize >= directed.len() + 4 {
+            if let Some(l) = directed[it as usize].0 {
+                limit = l;
+            }
+            directed[it as usize].1.clone()
+        } else {
+            gen_stream(&mut rng, &p, limit)
+        };
         let stream: Vec<u8> = frames.iter().flat_map(|f| f.bytes.clone()).collect();
         for f in &frames {
             *st.kinds.entry(format!("{:?}", f.kind)).or_insert(0) += 1;
